@@ -249,6 +249,15 @@ def run(m, o):
             else:
                 obs['rtype'] = type(val).__name__
                 res = [m.alloc(v) for v in val]
+        elif rkind == 'fmt':
+            ret, twin = val
+            if not isinstance(ret, str):
+                out = 'badtype'
+            else:
+                obs['out'] = cps(ret)
+                if twin is not None:
+                    res = [m.alloc(twin)]
+                    obs['twin_out'] = cps(twin.to_str())
         elif rkind == 'matching':
             ret, twin = val
             treg = m.alloc(twin)
@@ -643,3 +652,84 @@ def _query(m, o):
     sub, st, en = o['sub'], o.get('start'), o.get('end')
     return text_op(m, o, {'sub': cps(sub), 'start': opt(st), 'end': opt(en)},
                    (lambda: getattr(x, meth)(sub, st, en)), (lambda: getattr(t, meth)(sub, st, en)), 'scalar')
+
+
+# ---- format spec (C12) -----------------------------------------------------------------------------
+def parse_sf(sf):
+    k = 0
+    while k < len(sf) and sf[len(sf) - 1 - k].isascii() and sf[len(sf) - 1 - k].isdigit():
+        k += 1
+    pre, d = sf[:len(sf) - k], sf[len(sf) - k:]
+    w = int(d) if d else None
+    if len(pre) == 0:
+        return {'fill': ' ', 'ext': True, 'align': '<', 'width': w, 'amb': False}
+    if len(pre) == 1 and pre in '<>^':
+        return {'fill': ' ', 'ext': True, 'align': pre, 'width': w, 'amb': False}
+    if len(pre) == 2 and pre[1] in '<>^':
+        return {'fill': pre[0], 'ext': True, 'align': pre[1], 'width': w, 'amb': pre[0] in '+-'}
+    if len(pre) == 3 and pre[2] in '<>^' and pre[1] in '+-':
+        return {'fill': pre[0], 'ext': pre[1] == '+', 'align': pre[2], 'width': w, 'amb': False}
+    return None
+
+
+def parse_fmt(spec):
+    """Independent reading of the format-spec grammar (longest valid string_format wins); audited against
+    spec/FormatSpec.tla by the clause audit.fmt_parse."""
+    cands = []
+    if parse_sf(spec) is not None:
+        cands.append(0)
+    for c in range(len(spec)):
+        if spec[c] == ':' and parse_sf(spec[:c]) is not None:
+            cands.append(c + 1)
+    if not cands:
+        return None
+    c = 0 if 0 in cands else max(cands)
+    if c == 0:
+        p = parse_sf(spec)
+        p['ansi'] = None
+    else:
+        p = parse_sf(spec[:c - 1])
+        p['ansi'] = spec[c:]
+    return p
+
+
+@op('fmt')
+def _fmt(m, o):
+    x = m.regs[o['r']]
+    spec = o['spec']
+    how = o.get('how', 'format')
+    p = parse_fmt(spec)
+    A = m.lib.AnsiString
+    ansi_ok, twin, twin_err = 1, None, ''
+    if p is not None:
+        if p['ansi']:
+            out, _ = guarded(lambda: A('a', p['ansi']))
+            ansi_ok = b(out == 'ok')
+
+        def build():
+            t = A(x)
+            if not p['ext'] and p['ansi']:
+                t.apply_formatting(p['ansi'])
+            if p['width'] is not None:
+                meth = {'<': t.ljust, '>': t.rjust, '^': t.center}[p['align']]
+                meth(p['width'], p['fill'], inplace=True, extend_formatting=p['ext'])
+            if p['ext'] and p['ansi']:
+                t.apply_formatting(p['ansi'])
+            return t
+        if ansi_ok:
+            out, twin = guarded(build)
+            if out != 'ok':
+                twin, twin_err = None, out
+    a = {'spec': cps(spec), 'how': how,
+         'py_valid': b(p is not None),
+         'py': ({'fill': ord(p['fill']), 'ext': b(p['ext']), 'align': ord(p['align']), 'haswidth': b(p['width'] is not None),
+                 'width': clamp(p['width'] or 0), 'amb': b(p['amb']), 'hasansi': b(p['ansi'] is not None),
+                 'ansi': cps(p['ansi'] or '')} if p is not None else {'fill': 0}),
+         'ansi_ok': ansi_ok, 'has_twin': b(twin is not None)}
+    if how == 'format':
+        call = lambda: format(x, spec)
+    elif how == 'fstr':
+        call = lambda: ('{:' + spec + '}').format(x)
+    else:
+        call = lambda: x.to_str(spec)
+    return a, (lambda: (call(), twin)), 'fmt', {}
